@@ -98,8 +98,8 @@ class C11(Property):
 
     def _make(self, cls, d):
         if "interface_width" in d:
-            return cls(np.array(d["position"], float), d["radius"], d["interface_width"])
-        return cls(np.array(d["position"], float), d["radius"])
+            return cls(*gen.as_given(d["position"], d["radius"], d), d["interface_width"])
+        return cls(*gen.as_given(d["position"], d["radius"], d))
 
     def check(self, spec, ctx: Ctx):
         import droplets
